@@ -168,15 +168,31 @@ theorem C10_constructor_rejects (p : ℕ) (τ : Array K) (k : Int) (tol : K) :
         Basis.CtorPerMismatch p τ (max k (-1)) tol ∨ Basis.CtorDecreasing τ tol :=
   Basis.mk?_error_iff p τ k tol
 
-/-- Every other input is accepted and stored unchanged (`periodic` clipped at `-1`); there is no third
-    outcome. -/
+/-- Every other input is accepted; `periodic` is clipped at `-1` and the knots are stored as their running maximum
+    `Basis.cummax τ` (`np.maximum.accumulate`: the vector itself when it is non-decreasing — `Basis.cummax_of_sorted` —
+    and otherwise the vector with the decreases inside the tolerance, which the test lets through, taken out);
+    there is no third outcome. -/
 theorem C10_constructor_accepts_otherwise (p : ℕ) (τ : Array K) (k : Int) (tol : K) :
-    (Basis.mk? p τ k tol = .ok { order := p, knots := τ, periodic := max k (-1) } ↔
+    (Basis.mk? p τ k tol = .ok { order := p, knots := Basis.cummax τ, periodic := max k (-1) } ↔
       ¬ (p < 1 ∨ τ.size < 2 * p ∨ Basis.CtorShortPeriodic p τ (max k (-1)) ∨
           Basis.CtorPerMismatch p τ (max k (-1)) tol ∨ Basis.CtorDecreasing τ tol))
     ∧ (Basis.mk? p τ k tol = .error .value ∨
-        Basis.mk? p τ k tol = .ok { order := p, knots := τ, periodic := max k (-1) }) :=
+        Basis.mk? p τ k tol = .ok { order := p, knots := Basis.cummax τ, periodic := max k (-1) }) :=
   ⟨Basis.mk?_ok_iff p τ k tol, Basis.mk?_cases p τ k tol⟩
+
+/-- **Accepted ⇒ exactly non-decreasing** (closes the gap between "accepted" and "sorted"; repair of finding
+    `constructor-accepts-tolerance-inversion-evaluate-segfault`): every basis the constructor returns — also for an
+    input with decreases inside the tolerance — has as many knots as were given, stores their running maximum, and
+    that vector is non-decreasing (pairwise on the array, and in the adjacent form of `Basis.Valid.sorted`); for a
+    non-decreasing input the stored knots are the input. -/
+theorem C10_constructor_accepted_sorted (p : ℕ) (τ : Array K) (k : Int) (tol : K) (b : Basis K)
+    (h : Basis.mk? p τ k tol = .ok b) :
+    b.knots = Basis.cummax τ ∧ b.knots.size = τ.size ∧
+    (∀ i j, i ≤ j → j < b.knots.size → b.knots.getD i 0 ≤ b.knots.getD j 0) ∧
+    (∀ i, i + 1 < b.knots.size → b.kn i ≤ b.kn (i + 1)) ∧
+    ((∀ i, i + 1 < τ.size → τ.getD i 0 ≤ τ.getD (i + 1) 0) → b.knots = τ) := by
+  obtain ⟨h1, h2, h3, h4⟩ := Basis.mk?_ok_sorted p τ k tol b h
+  exact ⟨h1, h2, h3, h4, fun hs => by rw [h1, Basis.cummax_of_sorted τ hs]⟩
 
 /-- **No false rejection**: a semantically valid basis passes the constructor for every tolerance `≥ 0`. -/
 theorem C10_valid_accepted [IsStrictOrderedRing K] {b : Basis K} (hv : b.Valid) (tol : K) (htol : 0 ≤ tol) :
@@ -598,6 +614,23 @@ example : Basis.mk? 2 #[(0 : ℚ), 0, 1] (-1) C10_tol = .error .value :=
 
 example : Basis.mk? 2 #[(0 : ℚ), 1, 1/2, 2] (-1) C10_tol = .error .value :=
   (C10_constructor_rejects 2 _ _ _).2 (Or.inr (Or.inr (Or.inr (Or.inr ⟨1, by decide, by norm_num [C10_tol]⟩))))
+
+/-- the vector of the evaluator-crash reproducer `BSplineBasis(3, [0, 1e-17, 0, 0.5, 1, 1, 1])`: accepted (the decrease
+    is inside the tolerance) and stored as its running maximum. -/
+example : Basis.cummax (#[0, 1/100000000000000000, 0, 1/2, 1, 1, 1] : Array ℚ)
+    = #[0, 1/100000000000000000, 1/100000000000000000, 1/2, 1, 1, 1] := by decide +kernel
+
+example : ∃ b, Basis.mk? 3 (#[0, 1/100000000000000000, 0, 1/2, 1, 1, 1] : Array ℚ) (-1) C10_tol = .ok b ∧
+    b.knots = #[0, 1/100000000000000000, 1/100000000000000000, 1/2, 1, 1, 1] := by
+  refine ⟨_, ((C10_constructor_accepts_otherwise 3 _ (-1) C10_tol).1).2 ?_, by decide +kernel⟩
+  rintro (h | h | h | h | h)
+  · omega
+  · exact absurd h (by decide)
+  · exact absurd h.1 (by decide)
+  · exact absurd h.1 (by decide)
+  · obtain ⟨i, hi, h⟩ := h
+    have hi' : i < 6 := hi
+    interval_cases i <;> norm_num [C10_tol] at h
 
 /-- the repaired corner: `BSplineBasis(2, [0,0,1,1], 5)` is rejected with `ValueError` (`CtorShortPeriodic`). -/
 example : Basis.mk? 2 #[(0 : ℚ), 0, 1, 1] 5 C10_tol = .error .value :=
